@@ -35,6 +35,7 @@ fn session(args: &[String]) {
     let no_prelude = args.iter().any(|a| a == "--no-prelude");
     let mut ctx = Context::new(BuiltinModuleImporter::default());
     Context::use_test_exchange_rates();
+    ctx.load_currency_module_on_demand(true);       // the CLI default
     if !no_prelude {
         let _ = ctx.interpret("use prelude", CodeSource::Internal).unwrap();
     }
